@@ -302,9 +302,12 @@ def package_name(pkgdir):
     raise RuntimeError("no package clause in " + pkgdir)
 
 
-def run_harness(ctx, h):
-    """returns path of the line file written by the harness"""
-    sdir = os.path.join(ctx.scratch, h.name)
+def run_harness(ctx, h, esc=None):
+    """returns path of the line file written by the harness.
+    esc = None for the ordinary pass; for the escalated search (see `escalate`) a dict
+    {"tag": str, "seed": int, "tier": "thorough", "budget_s": float}: the harness then runs with the thorough-tier
+    sizes under another seed and is stopped when the budget is used up (its partial output is still analysed)."""
+    sdir = os.path.join(ctx.scratch, h.name + (esc["tag"] if esc else ""))
     shutil.rmtree(sdir, ignore_errors=True)
     os.makedirs(sdir)
     moddir = os.path.join(REPO, h.module)
@@ -339,9 +342,10 @@ def run_harness(ctx, h):
     out = os.path.join(sdir, "lines.txt")
     env = dict(os.environ)
     env.update(GOENV)
+    tier = esc["tier"] if esc else ctx.tier
     env.update({
-        "VERIF_SEED": str(ctx.seed), "VERIF_TIER": ctx.tier, "VERIF_OUT": out,
-        "VERIF_N": str(h.n.get(ctx.tier, h.n["quick"])),
+        "VERIF_SEED": str(esc["seed"] if esc else ctx.seed), "VERIF_TIER": tier, "VERIF_OUT": out,
+        "VERIF_N": str(h.n.get(tier, h.n["quick"])),
         "GOMEMLIMIT": "8GiB",
     })
     if ctx.replay is not None and ctx.replay.get("harness") in (None, h.name):
@@ -352,12 +356,33 @@ def run_harness(ctx, h):
     rel = "./" + os.path.relpath(pkgdir, moddir) + "/"
     # quick tier: no single harness may sit on a hang for longer than 10 minutes
     timeout_s = min(h.timeout_s, 600) if ctx.tier == "quick" else h.timeout_s
+    if esc:
+        timeout_s = int(h.timeout_s + esc["budget_s"]) + 60  # the external budget below ends the run, not go test
     cmd = [h.go, "test", "-tags", "verif", "-vet=off", "-overlay", opath, "-modfile=" + os.path.join(sdir, "go.mod"),
            "-run", "^%s$" % h.test, "-count=1", "-timeout", "%ds" % timeout_s] + (["-race"] if h.race else []) + h.extra_args + [rel]
     t = time.time()
-    r = subprocess.run(cmd, cwd=moddir, env=env, capture_output=True, text=True)
-    ctx.log("harness %s: %s -> %d (%.1fs)" % (h.name, " ".join(cmd[:2] + [rel]), r.returncode, time.time() - t))
-    ctx.cov["harness"][h.name] = {"cmd": " ".join(cmd), "exit": r.returncode, "wall_s": round(time.time() - t, 1)}
+    if esc:
+        # own process group, so that the test binary is stopped together with `go test` when the budget is used up
+        pr = subprocess.Popen(cmd, cwd=moddir, env=env, stdout=subprocess.PIPE, stderr=subprocess.PIPE, text=True, start_new_session=True)
+        try:
+            so, se = pr.communicate(timeout=max(20.0, esc["budget_s"]))
+        except subprocess.TimeoutExpired:
+            try:
+                os.killpg(pr.pid, 9)
+            except OSError:
+                pass
+            so, se = pr.communicate()
+            ctx.log("escalated harness %s%s: budget used up after %.0fs, analysing what it wrote" % (h.name, esc["tag"], time.time() - t))
+            ctx.cov["harness"][h.name + esc["tag"]] = {"cmd": " ".join(cmd), "exit": "budget", "wall_s": round(time.time() - t, 1)}
+            if not os.path.exists(out):
+                return None
+            esc["cut"] = True
+            return out
+        r = subprocess.CompletedProcess(cmd, pr.returncode, so, se)
+    else:
+        r = subprocess.run(cmd, cwd=moddir, env=env, capture_output=True, text=True)
+    ctx.log("harness %s%s: %s -> %d (%.1fs)" % (h.name, esc["tag"] if esc else "", " ".join(cmd[:2] + [rel]), r.returncode, time.time() - t))
+    ctx.cov["harness"][h.name + (esc["tag"] if esc else "")] = {"cmd": " ".join(cmd), "exit": r.returncode, "wall_s": round(time.time() - t, 1)}
     with open(os.path.join(sdir, "gotest.log"), "w") as f:
         f.write(r.stdout + "\n--- stderr ---\n" + r.stderr)
     if r.returncode != 0:
@@ -383,6 +408,75 @@ def run_driver(ctx, h, linefile):
     return out
 
 
+def trim_to_last_end(path):
+    """a line file cut by the escalation budget: keep everything up to the last complete `end` line"""
+    with open(path, "rb") as f:
+        data = f.read()
+    k = data.rfind(b"\nend\n")
+    with open(path, "wb") as f:
+        f.write(data[:k + 5] if k >= 0 else b"")
+
+
+def source_changed():
+    """-> description of how REPO's Go sources differ from the tree the committed evidence was made on, or None.
+    Differences: tracked *.go / go.mod files modified against HEAD, untracked non-test *.go files, or a HEAD other than the
+    one recorded in tools/baseline.json (written by tools/baseline.py after the acceptance run)."""
+    try:
+        r = subprocess.run(["git", "-C", REPO, "status", "--porcelain", "--untracked-files=all"], capture_output=True, text=True)
+        ch = [l[3:] for l in r.stdout.splitlines()
+              if (l[3:].endswith(".go") or l[3:].endswith("go.mod")) and not (l.startswith("??") and l.endswith("_test.go"))]
+        if ch:
+            return "working tree differs from HEAD in " + ", ".join(ch[:6])
+        with open(os.path.join(VERIF, "tools", "baseline.json")) as f:
+            base = json.load(f).get("repo_head")
+        head = subprocess.run(["git", "-C", REPO, "rev-parse", "HEAD"], capture_output=True, text=True).stdout.strip()
+        if base and head and base != head:
+            return "HEAD %s is not the recorded baseline %s" % (head[:9], base[:9])
+    except (OSError, ValueError):
+        pass
+    return None
+
+
+ESCALATION_BUDGET_S = float(os.environ.get("VERIF_ESCALATE_BUDGET", "420"))
+
+
+def escalate(ctx, lean_ok, why):
+    """DESIGN §2.5: the search for a concrete failing input when a proof obligation or the correspondence no longer
+    checks but no oracle has failed yet — and, in the quick tier, also when the Go sources differ from the tree the
+    check was accepted on and the first pass saw nothing. Every harness is re-run with the thorough-tier sizes
+    (exhaustive small scopes included) under other seeds until an oracle fails or the budget is used up. This is a
+    search, never a verdict of its own: it can only add `viol` / `prop FAIL` hits and differences."""
+    t0 = time.time()
+    ctx.log("escalated search (%s), budget %.0fs" % (why, ESCALATION_BUDGET_S))
+    ctx.cov["escalated"] = why
+    rounds = 0
+    while time.time() - t0 < ESCALATION_BUDGET_S and not ctx.violations and rounds < 3:
+        rounds += 1
+        for h in ctx.spec.harnesses:
+            left = ESCALATION_BUDGET_S - (time.time() - t0)
+            if left < 25 or ctx.violations:
+                break
+            if any(b[0].endswith("harness-build:" + h.name) for b in ctx.broken):
+                continue
+            esc = {"tag": "+esc%d" % rounds, "seed": ctx.seed + 7919 * rounds, "tier": "thorough", "budget_s": left}
+            try:
+                lf = run_harness(ctx, h, esc)
+                if lf is None:
+                    continue
+                if esc.get("cut"):
+                    trim_to_last_end(lf)
+                mf = None
+                if h.driver and (lean_ok or os.path.exists(os.path.join(ctx.scratch, h.driver))):
+                    try:
+                        mf = run_driver(ctx, h, lf)
+                    except TieBroken as e:
+                        ctx.broken.append(("correspondence:" + e.what, e.detail))
+                analyse(ctx, h, lf, mf, cut=bool(esc.get("cut")))
+            except TieBroken as e:
+                ctx.broken.append(("correspondence:" + e.what, e.detail))
+    ctx.log("escalated search done after %.0fs: %d violation(s)" % (time.time() - t0, len(ctx.violations)))
+
+
 def split_cases(path, keep):
     """-> list of (case id, [lines kept], [all lines])"""
     cases, cur = [], None
@@ -402,11 +496,16 @@ def split_cases(path, keep):
     return cases
 
 
-def analyse(ctx, h, linefile, modelfile):
+def analyse(ctx, h, linefile, modelfile, cut=False):
+    """cut: the harness was stopped by the escalation budget — its last, unfinished case is dropped, not diffed"""
     known = {k["signature"]: k for k in load_known() if k["property"] == ctx.pid and k.get("status") == "open"}
     impl = split_cases(linefile, {"obs", "end"})
+    if cut and impl and "end" not in impl[-1][2]:
+        impl.pop()
     stats = ctx.cov["stats"].setdefault(h.name, {})
     model = split_cases(modelfile, {"obs", "end", "prop"}) if modelfile else None
+    if cut and model is not None:
+        model = model[:len(impl)]
     ctx.cov["evaluations"] += len(impl)
     nsample = 0
     first_diff = None
@@ -546,6 +645,14 @@ def run(spec, tier, seed, replay=None):
             spec.post(ctx)
         except TieBroken as e:
             ctx.broken.append(("post:" + e.what, e.detail))
+    # 4b. escalated search for a concrete failing input (never on a replay; only when nothing concrete was found yet)
+    if replay is None and not ctx.violations and not os.environ.get("VERIF_NO_ESCALATE"):
+        if ctx.broken and not any(b[0] == "repo-modified" for b in ctx.broken):
+            escalate(ctx, lean_ok, "no longer checks: " + ctx.broken[0][0])
+        elif tier == "quick" and not ctx.broken:
+            why = source_changed()
+            if why:
+                escalate(ctx, lean_ok, why)
     after = repo_status()
     if before != after:
         ctx.broken.append(("repo-modified", "git status of /repo changed during the run:\n" + after))
